@@ -251,11 +251,21 @@ def run_obligation_file(path, tier, seed, only=None, verbose=False):
 def _run_one(o, mod, dem, ll, wd, tier, seed, R, log, irsym):
     opts = o.opts
     thorough = tier == "thorough"
-    tmo = int(opts.get("timeout_ms", 60000)) * (10 if thorough else 1)
+    tmo = int(opts.get("timeout_ms", 20000)) * (10 if thorough else 1)
     E = irsym.Engine(mod, exact=True, timeout_ms=tmo, max_paths=int(opts.get("max_paths", 20000)),
                      max_steps=int(opts.get("max_steps", 3000000)),
                      loop_bound=(int(opts["loop_bound"]) if "loop_bound" in opts else None), keep_traces=True)
-    res = E.run(o.entry)
+    E.budget_s = float(opts.get("budget_s", 150)) * (8 if thorough else 1)
+    if os.environ.get("VF_TRACE"):
+        E.slowlog = lambda m: print("[%s] %s" % (o.id, m), file=sys.stderr)
+    try:
+        res = E.run(o.entry)
+    except irsym.Budget as e:
+        res = E.res
+        R["status"] = "inconclusive"
+        R["error"] = str(e)
+        R.update({"paths": res.paths, "queries": res.queries, "solver_s": round(res.solver_s, 3), "checks": res.checks})
+        return
     R.update({"paths": res.paths, "ended": res.ended, "steps": res.steps, "queries": res.queries,
               "solver_s": round(res.solver_s, 3), "checks": res.checks, "reached": res.reached,
               "assumptions": sorted(res.assumptions), "engine_errors": res.errors})
